@@ -19,5 +19,6 @@ TAGCHARS = ("Oracle/TagChars", "TagChars")
 # C13: constant types of operand/zconst.go + const.go (format verbs, Bytes)
 CONSTS = ("Gen/Consts", "Consts")
 MAPRANGES = ("Gen/MapRanges", "MapRanges")
+PASSFACTS = ("Gen/PassFacts", "PassFacts")
 
-ALL_MODULES = [MAPRANGES, TEXTFLAGS, TEXTFLAGH, REGS, REGHW] + forms_modules() + ctors_modules() + [MOV, TAGCHARS, CONSTS]
+ALL_MODULES = [PASSFACTS, MAPRANGES, TEXTFLAGS, TEXTFLAGH, REGS, REGHW] + forms_modules() + ctors_modules() + [MOV, TAGCHARS, CONSTS]
